@@ -68,7 +68,7 @@ def stepCore (items : List Item) (rootClone : List Nat) (times : List Int) (im :
     | .error e => .error e
     | .ok (evs, cc) =>
       let t := times.getD a.commit 0
-      .ok ({ s with cc := cc, idx := s.idx + 1, newest := if t > s.newest then t else s.newest }, evs)
+      .ok ({ s with cc := cc, idx := s.idx + 1, newest := if t > s.newest || s.idx = 0 then t else s.newest }, evs)
   | .fork =>
     let (clones, next, evs) := cloneItems2 items (getBranch s.branches first) (a.items.length - 1) s.next
     let bs := (a.items.drop 1).zip clones |>.foldl (fun bs (b, cl) => setBranch bs b cl) s.branches
